@@ -70,7 +70,7 @@ func (a *API) handle(w http.ResponseWriter, r *http.Request) {
 	status, ctype, body, hangup := a.status, a.ctype, a.body, a.hangup
 	a.mu.Unlock()
 	if hangup != "" && !over {
-		a.hangUp(w, hangup, ctype, body)
+		a.hangUp(w, hangup, status, ctype, body)
 		return
 	}
 	if over {
@@ -112,7 +112,13 @@ func (a *API) Hangup(mode string) {
 	a.mu.Unlock()
 }
 
-func (a *API) hangUp(w http.ResponseWriter, mode, ctype string, body []byte) {
+// BrokenBodyModes are answers whose status line and headers arrive intact (with the status of
+// the last Respond) but whose body does not: "short-body" declares a Content-Length 64 bytes
+// beyond what is sent before the connection is closed, "chunked-cut" sends one chunk and closes
+// without the terminating chunk. Set with Hangup.
+var BrokenBodyModes = []string{"short-body", "chunked-cut"}
+
+func (a *API) hangUp(w http.ResponseWriter, mode string, status int, ctype string, body []byte) {
 	hj, ok := w.(http.Hijacker)
 	if !ok {
 		panic("verif: response writer cannot be hijacked")
@@ -126,8 +132,18 @@ func (a *API) hangUp(w http.ResponseWriter, mode, ctype string, body []byte) {
 	case "close-in-header":
 		io.WriteString(conn, "HTTP/1.1 200 OK\r\nContent-Type: application/xml\r\nContent-Le")
 	case "close-in-body":
-		io.WriteString(conn, "HTTP/1.1 200 OK\r\nContent-Type: "+ctype+"\r\nContent-Length: "+strconv.Itoa(len(body)+64)+"\r\n\r\n")
+		io.WriteString(conn, statusLine(status)+"Content-Type: "+ctype+"\r\nContent-Length: "+strconv.Itoa(len(body)+64)+"\r\n\r\n")
 		conn.Write(body[:len(body)/2])
+	case "short-body":
+		io.WriteString(conn, statusLine(status)+"Content-Type: "+ctype+"\r\nContent-Length: "+strconv.Itoa(len(body)+64)+"\r\n\r\n")
+		conn.Write(body)
+	case "chunked-cut":
+		io.WriteString(conn, statusLine(status)+"Content-Type: "+ctype+"\r\nTransfer-Encoding: chunked\r\n\r\n")
+		if len(body) > 0 {
+			io.WriteString(conn, strconv.FormatInt(int64(len(body)), 16)+"\r\n")
+			conn.Write(body)
+			io.WriteString(conn, "\r\n")
+		}
 	}
 }
 
@@ -215,6 +231,10 @@ func (l *APILimiter) Take() []int64 {
 	out := l.waits
 	l.waits = nil
 	return out
+}
+
+func statusLine(status int) string {
+	return "HTTP/1.1 " + strconv.Itoa(status) + " " + http.StatusText(status) + "\r\n"
 }
 
 // FaultModes are the client-side transport faults a FaultTripper can inject: the named error
